@@ -1,5 +1,5 @@
 PROPS["C13"] = dict(
-    jobs=[job("dma", "c13_dma", cases={Q: 80, T: 3000}),
+    jobs=[job("dma", "c13_dma", cases={Q: 80, T: 2000}),
           # same workload under ASan+UBSan: the configurations outside the statement (unaligned / 8-bit / partial bursts) are
           # executed for sanitizer coverage; a sanitizer abort kills the worker and becomes a violation (crash_is_violation)
           job("asan", "c13_dma", flavour="asan", cases={Q: 6, T: 200})],
@@ -14,7 +14,8 @@ PROPS["C13"] = dict(
          "burst, which dimensions > 1, which sizes are 0, overlap, DMA channel) keys of fully value-checked transfers",
     floors={Q: {"transfers": 10000, "irq_exactly_once": 10000, "ext_checked_transfers": 2000, "burst_checked_transfers": 300,
                 "ext_log_entries_compared": 50000, "overlapping_transfers": 500, "three_dimensional_transfers": 1500,
-                "zero_size_transfers": 1000, "ext_exec_only_transfers": 500, "big_transfers": 5, "size_16bit_edge_transfers": 50},
+                "zero_size_transfers": 1000, "ext_exec_only_transfers": 500, "big_transfers": 5, "size_16bit_edge_transfers": 50,
+                **{"dma_channel_%d" % i: 1000 for i in range(8)}, **{"ahbm_channel_%d" % i: 1500 for i in range(3)}},
             T: {"transfers": 400000, "irq_exactly_once": 400000, "ext_checked_transfers": 150000, "burst_checked_transfers": 50000,
                 "overlapping_transfers": 80000, "three_dimensional_transfers": 150000, "zero_size_transfers": 100000,
                 "big_transfers": 300, "size_16bit_edge_transfers": 3000}},
